@@ -529,3 +529,61 @@ func VerifC18_Power() {
 	zz.Assert("C18.power.inverse", tk.BigInt().Cmp(new(big.Int).Mul(big.NewInt(p), million)) == 0 && TokensToConsensusPower(tk) == p)
 	zz.Reach("C18.power")
 }
+
+// VerifC18_IntRaw: the int64-operand variants (AddRaw, SubRaw, MulRaw, QuoRaw, ModRaw) equal exact integer arithmetic for
+// every int64 (MinInt64 included) and panic iff the exact result is out of range / the divisor is zero.
+func VerifC18_IntRaw() {
+	a := zz.Big("a", vMinInt, vMaxInt)
+	a0 := new(big.Int).Set(a)
+	x := NewIntFromBigInt(a)
+	op := zz.Choice("op", 5)
+	var r int64
+	if op == 2 {
+		// product with a symbolic Int: the int64 operand comes from a boundary set (linear for the solver)
+		r = []int64{0, 1, -1, 2, -3, 1000000, -1 << 63, 1<<63 - 1, -1<<63 + 1, 1 << 32}[zz.Choice("r", 10)]
+	} else {
+		r = zz.Int64("r", -1<<63, 1<<63-1)
+	}
+	rb := big.NewInt(r)
+	var got Int
+	var panicked bool
+	switch op {
+	case 0:
+		exact := new(big.Int).Add(a0, rb)
+		panicked = vPanics(func() { got = x.AddRaw(r) })
+		zz.Assert("C18.int.raw.add.panic-iff-overflow", panicked == !vInRange(exact))
+		if !panicked {
+			zz.Assert("C18.int.raw.add.exact", got.BigInt().Cmp(exact) == 0)
+		}
+	case 1:
+		exact := new(big.Int).Sub(a0, rb)
+		panicked = vPanics(func() { got = x.SubRaw(r) })
+		zz.Assert("C18.int.raw.sub.panic-iff-overflow", panicked == !vInRange(exact))
+		if !panicked {
+			zz.Assert("C18.int.raw.sub.exact", got.BigInt().Cmp(exact) == 0)
+		}
+	case 2:
+		exact := new(big.Int).Mul(a0, rb)
+		panicked = vPanics(func() { got = x.MulRaw(r) })
+		zz.Assert("C18.int.raw.mul.panic-iff-overflow", panicked == !vInRange(exact))
+		if !panicked {
+			zz.Assert("C18.int.raw.mul.exact", got.BigInt().Cmp(exact) == 0)
+		}
+	case 3:
+		panicked = vPanics(func() { got = x.QuoRaw(r) })
+		zz.Assert("C18.int.raw.quo.panic-iff-zero", panicked == (r == 0))
+		if !panicked {
+			zz.Assert("C18.int.raw.quo.truncates", vTruncDivOK(a0, rb, got.BigInt()))
+		}
+	case 4:
+		panicked = vPanics(func() { got = x.ModRaw(r) })
+		zz.Assert("C18.int.raw.mod.panic-iff-zero", panicked == (r == 0))
+		if !panicked {
+			m := got.BigInt()
+			zz.Assert("C18.int.raw.mod.range", m.Sign() >= 0 && m.Cmp(new(big.Int).Abs(rb)) < 0)
+			zz.Assert("C18.int.raw.mod.congruent", new(big.Int).Rem(new(big.Int).Sub(a0, m), rb).Sign() == 0)
+		}
+	}
+	zz.Assert("C18.int.raw.operand-unchanged", x.BigInt().Cmp(a0) == 0)
+	zz.Reach("C18.int.raw")
+}
